@@ -258,6 +258,8 @@ class Exec(ExprMixin, AccessMixin, CallMixin, StmtMixin, SpecMixin, HeapMixin, O
         else:
           args_env[p] = self.make_input(st, p, Kind('ref', arg=finfo.cls.name))
           args_env[p].cls = finfo.cls
+          if con.opts.get('exact_self'):
+            args_env[p].exact = True        # the contract is about this class's own methods (no subclass overrides)
       else:
         d = self.param_default(finfo, p)
         if d is None:
